@@ -651,6 +651,8 @@ def m_read(c):
     # Ok(0): end of stream
     s0 = c.fork()
     s0.ghost["eof_seen"] = 1
+    if c.I.opt.get("eof_partition") and not any(x[0] == "eof" for x in s0.tag):
+        s0.tag = s0.tag + (("eof", 1),)      # end of stream observed: kept apart from states where it was not
     c.ret(res_ok(Int.const(0, 64, False)), st=s0)
     # Ok(n), 1 <= n <= len
     if ln.hi >= 1:
